@@ -143,6 +143,28 @@ def r3_star_params(ctx, F):
             if any(re.search(r"dict::value::Dict::<'v>::values$|DictRef::<'v>::(values|iter)|Dict::<'v>::iter", x)
                    for x in names):
                 elem["dict"] = True
+    # closure form: `content().iter().try_for_each(|x| ty.check_type(*x, ..))` - a closure of the check that calls
+    # check_type is handed to an iterator method whose receiver comes from the tuple content / the dict values
+    it_pass = re.compile(r"(Iterator(>)?::\w+$|IntoIterator(>)?::into_iter$|IntoIterator for .*>::into_iter$|::iter$|"
+                         r"Deref>::deref$|Option::<.*>::(map_or|unwrap\w*|map)$|Try>::branch$|copied$)")
+    for g in bodies:
+        cl_locals = {}
+        for st in g.stmts:
+            if st.kind.startswith("agg closure ") and " @" in st.kind:
+                k = F.fns.get(st.kind.rsplit(" @", 1)[1])
+                if k is not None and any(re.search(r"TypeCompiled::<V>::check_type$", c.name) for c in k.calls):
+                    cl_locals[st.lhs] = k
+        for c in g.calls:
+            if c.bb in g.cleanup or not re.search(r"Iterator(>)?::(try_for_each|for_each|all|try_fold|map)$", c.name):
+                continue
+            if not any(a.split()[-1] in cl_locals for a in c.args[1:] if a.startswith(("move ", "copy "))):
+                continue
+            n += 1
+            names = {o[1].name for o in origins(g, c.args[0], pass_calls=it_pass, through_all_args=True) if o[0] == "call"}
+            if any(re.search(r"TupleRef::<'v>::(from_value|content)$|Tuple::<'v>::content$", x) for x in names):
+                elem["tuple"] = True
+            if any(re.search(r"Dict::<'v>::(values|iter)$|DictRef::<'v>::(values|iter)", x) for x in names):
+                elem["dict"] = True
     par = F.one(r"eval::compiler::def::<impl eval::compiler::Compiler<'_, '_, '_, '_>>::parameter$")
     wraps = {"tuple": any(re.search(r"typing::ty::Ty::tuple_of$", c.name) for c in par.calls),
              "dict": any(re.search(r"typing::ty::Ty::dict$", c.name) for c in par.calls)}
